@@ -32,44 +32,58 @@ Section Text.
   Lemma skipn_chunk_length k c : k + c <= length C -> length (firstn c (skipn k C)) = c.
   Proof. intro H. rewrite firstn_length, skipn_length. lia. Qed.
 
-  (* _traverse_codepoints towards a position inside the data *)
-  Lemma ss_traverse_spec dest : dest <= length C -> forall fuel s cur,
-    RI C cur (ss_buf s) -> cur <= dest -> dest - cur + 1 <= fuel -> 1 <= ss_chunk s ->
-    RI C dest (ss_buf (ss_traverse fuel s cur dest)) /\ same_cfg s (ss_traverse fuel s cur dest).
+  Lemma read_chunk_length k c : k <= length C ->
+    length (firstn c (skipn k C)) = Nat.min c (length C - k).
+  Proof. intro H. now rewrite firstn_length, skipn_length. Qed.
+
+  (* _traverse_codepoints towards any position (cur is the loop's nominal position: it
+     runs ahead of the real one once the data is exhausted) *)
+  Lemma ss_traverse_spec dest : forall fuel s cur,
+    RI C (Nat.min cur (length C)) (ss_buf s) -> cur <= dest -> dest - cur + 1 <= fuel -> 1 <= ss_chunk s ->
+    RI C (Nat.min dest (length C)) (ss_buf (ss_traverse fuel s cur dest)) /\
+    same_cfg s (ss_traverse fuel s cur dest).
   Proof.
-    intros Hd. induction fuel as [|fuel IH]; intros s cur I Hc F Ch; [lia|].
+    induction fuel as [|fuel IH]; intros s cur I Hc F Ch; [lia|].
     cbn [ss_traverse].
     destruct (Nat.eqb cur dest) eqn:E1.
     { apply Nat.eqb_eq in E1. subst. split; [exact I|apply same_cfg_refl]. }
     apply Nat.eqb_neq in E1.
+    set (k := Nat.min cur (length C)) in *.
+    assert (Kc : k <= length C) by (unfold k; lia).
     destruct (dest <? cur + ss_chunk s) eqn:E2.
-    - pose proof (ss_read_spec s cur (Some (dest - cur)) I) as [R1 [R2 [_ R4]]].
-      rewrite R1 in R2. rewrite skipn_chunk_length in R2 by lia.
-      replace (cur + (dest - cur)) with dest in R2 by lia. auto.
-    - pose proof (ss_read_spec s cur (Some (ss_chunk s)) I) as [R1 [R2 [_ R4]]].
+    - pose proof (ss_read_spec s k (Some (dest - cur)) I) as [R1 [R2 [_ R4]]].
+      rewrite R1 in R2. rewrite read_chunk_length in R2 by exact Kc.
+      replace (k + Nat.min (dest - cur) (length C - k)) with (Nat.min dest (length C)) in R2 by (unfold k; lia).
+      auto.
+    - pose proof (ss_read_spec s k (Some (ss_chunk s)) I) as [R1 [R2 [_ R4]]].
       destruct (ss_read s (Some (ss_chunk s))) as [s1 ret]. cbn [fst snd] in *.
-      rewrite R1 in R2. rewrite skipn_chunk_length in R2 by lia.
-      assert (NE : nonempty ret = true).
-      { assert (length ret = ss_chunk s) by (rewrite R1; apply skipn_chunk_length; lia).
-        destruct ret; [cbn in *; lia|reflexivity]. }
-      rewrite NE.
-      destruct R4 as [M4 C4].
-      destruct (IH s1 (cur + ss_chunk s) R2 ltac:(lia) ltac:(lia) ltac:(lia)) as [J1 J2].
-      split; [exact J1|].
-      eapply same_cfg_trans; [split; eassumption|exact J2].
+      assert (Lr : length ret = Nat.min (ss_chunk s) (length C - k)) by (rewrite R1; now apply read_chunk_length).
+      rewrite Lr in R2.
+      destruct (nonempty ret) eqn:NE.
+      + assert (Lp : 1 <= length ret) by (destruct ret; [discriminate|cbn; lia]).
+        destruct R4 as [M4 C4].
+        replace (k + Nat.min (ss_chunk s) (length C - k)) with (Nat.min (cur + ss_chunk s) (length C)) in R2
+          by (unfold k in *; lia).
+        destruct (IH s1 (cur + ss_chunk s) R2 ltac:(lia) ltac:(lia) ltac:(lia)) as [J1 J2].
+        split; [exact J1|].
+        eapply same_cfg_trans; [split; eassumption|exact J2].
+      + apply nonempty_false in NE. rewrite NE in Lr. cbn [length] in Lr.
+        replace (k + Nat.min (ss_chunk s) (length C - k)) with (Nat.min dest (length C)) in R2
+          by (unfold k in *; lia).
+        auto.
   Qed.
 
-  (* seek(pos) with 0 <= pos <= len *)
+  (* seek(pos), any pos >= 0 *)
   Lemma ss_seek_set_spec s pos :
     rf_data (ef_stream (ss_buf s)) = utf8_enc C -> rd_ok (ef_rd (ss_buf s)) = true ->
-    pos <= length C -> 1 <= ss_chunk s ->
-    RI C pos (ss_buf (ss_seek_set s pos)) /\ ss_tell (ss_seek_set s pos) = pos /\
+    1 <= ss_chunk s ->
+    RI C (Nat.min pos (length C)) (ss_buf (ss_seek_set s pos)) /\ ss_tell (ss_seek_set s pos) = pos /\
     same_cfg s (ss_seek_set s pos).
   Proof.
-    intros D Ok Hp Ch. unfold ss_seek_set.
+    intros D Ok Ch. unfold ss_seek_set.
     set (s1 := ss_with s (ef_seek (ss_buf s) 0 0) (ss_tell s)).
-    assert (I1 : RI C 0 (ss_buf s1)) by (apply ef_seek0_RI; assumption).
-    destruct (ss_traverse_spec pos Hp (S (S pos)) s1 0 I1 ltac:(lia) ltac:(lia) Ch) as [T1 T2].
+    assert (I1 : RI C (Nat.min 0 (length C)) (ss_buf s1)) by (apply ef_seek0_RI; assumption).
+    destruct (ss_traverse_spec pos (S (S pos)) s1 0 I1 ltac:(lia) ltac:(lia) Ch) as [T1 T2].
     cbn [ss_with ss_buf ss_tell]. split; [exact T1|]. split; [reflexivity|].
     destruct T2 as [T2 T3]. split; cbn [ss_with ss_max ss_chunk]; [rewrite T2|rewrite T3]; reflexivity.
   Qed.
@@ -101,9 +115,9 @@ Section Text.
   Qed.
 
   (* len(f) *)
-  Lemma ss_len_spec s : RI C (ss_tell s) (ss_buf s) -> 1 <= ss_chunk s ->
+  Lemma ss_len_spec s : RI C (Nat.min (ss_tell s) (length C)) (ss_buf s) -> 1 <= ss_chunk s ->
     snd (ss_len s) = length C /\
-    RI C (ss_tell s) (ss_buf (fst (ss_len s))) /\ ss_tell (fst (ss_len s)) = ss_tell s /\
+    RI C (Nat.min (ss_tell s) (length C)) (ss_buf (fst (ss_len s))) /\ ss_tell (fst (ss_len s)) = ss_tell s /\
     same_cfg s (fst (ss_len s)).
   Proof.
     intros I Ch. unfold ss_len.
@@ -115,25 +129,25 @@ Section Text.
       as [N1 [N2 N3]].
     destruct (ss_count _ s1 0) as [s2 total]. cbn [fst snd] in *.
     destruct N2 as [Ok2 [_ [D2 _]]]. destruct N3 as [M3 C3].
-    destruct (ss_seek_set_spec s2 (ss_tell s) D2 Ok2 K ltac:(cbn in *; lia)) as [P1 [P2 [P3 P4]]].
+    destruct (ss_seek_set_spec s2 (ss_tell s) D2 Ok2 ltac:(cbn in *; lia)) as [P1 [P2 [P3 P4]]].
     split; [lia|]. split; [exact P1|]. split; [exact P2|].
     split; cbn in *; congruence.
   Qed.
 
   (* getvalue() *)
-  Lemma ss_getvalue_spec s : RI C (ss_tell s) (ss_buf s) -> 1 <= ss_chunk s ->
+  Lemma ss_getvalue_spec s : RI C (Nat.min (ss_tell s) (length C)) (ss_buf s) -> 1 <= ss_chunk s ->
     snd (ss_getvalue s) = C /\
-    RI C (ss_tell s) (ss_buf (fst (ss_getvalue s))) /\ ss_tell (fst (ss_getvalue s)) = ss_tell s /\
+    RI C (Nat.min (ss_tell s) (length C)) (ss_buf (fst (ss_getvalue s))) /\ ss_tell (fst (ss_getvalue s)) = ss_tell s /\
     same_cfg s (fst (ss_getvalue s)).
   Proof.
     intros I Ch. unfold ss_getvalue.
     destruct I as [Ok [K [D [W [LO X]]]]].
-    destruct (ss_seek_set_spec s 0 D Ok ltac:(lia) Ch) as [A1 [A2 [A3 A4]]].
+    destruct (ss_seek_set_spec s 0 D Ok Ch) as [A1 [A2 [A3 A4]]]. cbn [Nat.min] in A1.
     set (s1 := ss_seek_set s 0) in *.
     pose proof (ss_read_spec s1 0 None A1) as [R1 [R2 [_ [R4 R5]]]].
     destruct (ss_read s1 None) as [s2 val]. cbn [fst snd] in *.
     destruct R2 as [Ok2 [_ [D2 _]]].
-    destruct (ss_seek_set_spec s2 (ss_tell s) D2 Ok2 K ltac:(lia)) as [P1 [P2 [P3 P4]]].
+    destruct (ss_seek_set_spec s2 (ss_tell s) D2 Ok2 ltac:(lia)) as [P1 [P2 [P3 P4]]].
     split; [exact R1|]. split; [exact P1|]. split; [exact P2|].
     split; congruence.
   Qed.
@@ -142,9 +156,10 @@ End Text.
 (* =========================================================================
    the object against the reference text file
    ========================================================================= *)
+(* the position may lie past the end of the data: the reader then stands at the end *)
 Definition SI (f : rfile) (s : sstring) : Prop :=
   Forall uvalid (rf_data f) /\ 1 <= ss_chunk s /\ ss_tell s = rf_pos f /\
-  RI (rf_data f) (rf_pos f) (ss_buf s).
+  RI (rf_data f) (Nat.min (rf_pos f) (length (rf_data f))) (ss_buf s).
 
 Lemma RI_at_end C e : RI C (length C) e ->
   pending (ef_rd e) = [] /\ rd_bytes (ef_rd e) = [] /\ rf_pos (ef_stream e) = length (rf_data (ef_stream e)).
@@ -173,7 +188,7 @@ Qed.
 Lemma ss_write_spec f s d : SI f s -> rf_pos f = length (rf_data f) -> Forall uvalid d ->
   SI (mkRF (rf_data f ++ d) (rf_pos f + length d)) (ss_write s d) /\ same_cfg s (ss_write s d).
 Proof.
-  intros [V [Ch [T I]]] Hend Vd. rewrite Hend in I.
+  intros [V [Ch [T I]]] Hend Vd. rewrite Hend, Nat.min_id in I.
   destruct (RI_at_end _ _ I) as [Pn [Bn Pe]].
   destruct I as [Ok [K [D [W [LO X]]]]].
   unfold ss_write.
@@ -200,6 +215,6 @@ Proof.
     split; [|split; cbn; assumption].
     unfold SI. cbn [rf_data rf_pos ss_with ss_chunk ss_tell ss_buf].
     split; [apply Forall_app; auto|]. split; [lia|]. split; [lia|].
-    rewrite Hend. now apply write_RI. }
+    rewrite Hend, app_length, Nat.min_id. now apply write_RI. }
   destruct (ss_max s <=? ef_tell (ss_buf s) + length (utf8_enc d)); apply B; auto.
 Qed.
